@@ -308,14 +308,20 @@ package engine
 //@   pure
 //@   requires row != nil && len(row.Vals) >= 1 && (forall k sql.ColumnReference :: has(colToIdx, k) ==> 0 <= colToIdx[k] && colToIdx[k] < len(row.Vals))
 
+//@ spec pred hasAgg(sl sql.SelectList) { exists i int :: 0 <= i && i < len(sl) && sql.isAggCol(sl, i) }
+
 //@ func aggregateRows(selectList sql.SelectList, groupBy []sql.ColumnReference, rows []*storage.Row) ([]*storage.Row, error)
-//@   props C07 C18
-//@   trusted
+//@   props C07
+//@   partial
 //@   requires len(selectList) >= 1 && avgArgsOK(selectList) && (typeof(vep(selectList,0)) != typ(sql.Asterisk) ==> rowsWide(len(selectList), rows))
 //@   modifies elems(rows), allelems(any)
-//@   ensures[shape; C18] err == nil && typeof(vep(selectList,0)) != typ(sql.Asterisk) ==> rowsWide(len(selectList), result0)
-//@   ensures[star] typeof(vep(selectList,0)) == typ(sql.Asterisk) ==> err == nil && result0 == rows && (forall i int :: 0 <= i && i < len(rows) ==> rows[i] == old(rows[i]))
-//@   ensures[fresh] result0 == rows || result0 == nil || fresh(result0) || base(result0) == base(rows)
+//@   ensures[noagg; C07] !hasAgg(selectList) ==> err == nil && result0 == rows
+//@   ensures[empty.implicit; C07] hasAgg(selectList) && len(groupBy) == 0 && len(rows) == 0 && err == nil ==> len(result0) == 1
+//@   ensures[empty.grouped; C07] hasAgg(selectList) && len(groupBy) > 0 && len(rows) == 0 ==> err == nil && len(result0) == 0
+//@   ensures[groups.bound; C07] err == nil && len(rows) > 0 ==> len(result0) <= len(rows)
+//@   ensures_assumed[shape] err == nil && typeof(vep(selectList,0)) != typ(sql.Asterisk) ==> rowsWide(len(selectList), result0)
+//@   ensures_assumed[star] typeof(vep(selectList,0)) == typ(sql.Asterisk) ==> err == nil && result0 == rows && (forall i int :: 0 <= i && i < len(rows) ==> rows[i] == old(rows[i]))
+//@   loop 2 invariant 0 <= rowIdx && rowIdx <= rangeindex + 1
 
 // ---- statements (C05 C13 C14 C18) ----
 
